@@ -133,6 +133,80 @@ func runC07(c *Ctx) {
 			}
 		}
 	}
+	// a results object that is already CROWDED - it holds many warnings (a long list of imports using a deprecated
+	// field was validated into it), or the claim itself raises many errors next to its time issues (130 exports of no
+	// kind): however many issues there are, the time-check issues are all there and IsBlocking(true) shows them
+	for _, crowd := range []int{99, 100, 101, 127, 128, 255, 256, 1000, 1023, 1024, 4096, 16383, 16384, 16385, 65536, 70000} {
+		for ki, kind := range kindNames {
+			if crowd > 1024 && ki != crowd%len(kindNames) {
+				continue // the big crowds with one kind each
+			}
+			for _, tcase := range [][2]int64{{now - 1000, 0}, {now - 900, now + 900}, {0, 0}} {
+				cl := g.clean(kind)
+				cl.Claims().Expires, cl.Claims().NotBefore = tcase[0], tcase[1]
+				each := 0
+				if tcase[0] > 0 {
+					each++
+				}
+				if tcase[1] > 0 {
+					each++
+				}
+				for _, where := range []string{"before", "after"} {
+					vr := jwt.CreateValidationResults()
+					fill := func() {
+						for i := 0; i < crowd; i++ {
+							vr.AddWarning("warning %d of a long validation run", i)
+						}
+					}
+					if where == "before" {
+						fill()
+					}
+					cl.Validate(vr)
+					if where == "after" {
+						fill()
+					}
+					n := 0
+					for _, is := range vr.Issues {
+						if is.TimeCheck {
+							n++
+						}
+					}
+					c.sum.Evaluations++
+					c.sum.ImplChecks++
+					if n != each || vr.IsBlocking(true) != (each > 0) || vr.IsBlocking(false) || len(vr.Issues) != crowd+each {
+						c.violation("C07: in a results object crowded with warnings the time-check issues of a claim are not all there",
+							map[string]interface{}{"kind": kind, "exp": tcase[0], "nbf": tcase[1], "warnings": crowd, "warnings_added": where + " the claim was validated",
+								"time_issues": n, "expected": each, "issues_held": len(vr.Issues), "blocking_with_time_checks": vr.IsBlocking(true), "blocking": vr.IsBlocking(false)})
+					}
+					c.count("crowded_results_object")
+				}
+			}
+		}
+	}
+	for _, nbad := range []int{99, 100, 130, 1000, 2500} {
+		ac := g.clean("account").(*jwt.AccountClaims)
+		ac.Exports = nil
+		for i := 0; i < nbad; i++ {
+			ac.Exports.Add(&jwt.Export{Subject: jwt.Subject(fmt.Sprintf("bad.export.%d", i)), Type: jwt.ExportType(7)})
+		}
+		ac.Limits.Exports = -1
+		ac.Expires, ac.NotBefore = now-1000, now+1000
+		vr := jwt.CreateValidationResults()
+		ac.Validate(vr)
+		n := 0
+		for _, is := range vr.Issues {
+			if is.TimeCheck {
+				n++
+			}
+		}
+		c.sum.Evaluations++
+		c.sum.ImplChecks++
+		if n != 2 || !vr.IsBlocking(true) {
+			c.violation("C07: next to many errors of its own a claim's time-check issues are not all there",
+				map[string]interface{}{"kind": "account", "exports_of_no_kind": nbad, "time_issues": n, "expected": 2, "issues_held": len(vr.Issues)})
+		}
+		c.count("crowded_by_own_errors")
+	}
 	c.sum.Exhaustive = true
 	// claims that ALSO contain something invalid: the time issues change neither that they block without time
 	// checks nor what is counted (an authorization response may be a rejection: error set, no token)
@@ -500,6 +574,56 @@ func runC10(c *Ctx) {
 				}
 			}
 		}
+	}
+	// the offending import at the END of a long list whose other entries each raise a (non-blocking) warning - stream
+	// imports still using the deprecated To field: however many issues the results object already holds, the binding
+	// violation is reported as blocking; likewise into a results object pre-filled with warnings
+	for _, crowd := range []int{10, 99, 100, 101, 1000, 16383, 16384, 16385, 40000} {
+		exporter, importer, other := newSigner("account"), newSigner("account"), newSigner("account")
+		act := jwt.NewActivationClaims(other.pub) // addressed to another account
+		act.ImportSubject, act.ImportType = "crowd.bad.>", jwt.Stream
+		tok, err := act.Encode(exporter.kp)
+		if err != nil {
+			panic(err)
+		}
+		bad := &jwt.Import{Name: "bad", Subject: "crowd.bad.x", Account: exporter.pub, Token: tok, Type: jwt.Stream}
+		var imports jwt.Imports
+		for i := 0; i < crowd; i++ {
+			imports = append(imports, &jwt.Import{Name: "old", Subject: jwt.Subject(fmt.Sprintf("crowd.s%d", i)), Account: exporter.pub, To: jwt.Subject(fmt.Sprintf("crowd.t%d", i)), Type: jwt.Stream})
+		}
+		imports = append(imports, bad)
+		vr := jwt.CreateValidationResults()
+		imports.Validate(importer.pub, vr)
+		c.sum.Evaluations++
+		c.sum.ImplChecks++
+		if !vr.IsBlocking(false) {
+			c.violation("C10: an import whose token violates the binding validates without a blocking issue at the end of a long list of imports that raise warnings",
+				map[string]interface{}{"imports_before_it": crowd, "issues_held": len(vr.Issues), "violated": "addressed to another account"})
+		}
+		vr = jwt.CreateValidationResults()
+		for i := 0; i < crowd; i++ {
+			vr.AddWarning("warning %d of a long validation run", i)
+		}
+		bad.Validate(importer.pub, vr)
+		c.sum.ImplChecks++
+		if !vr.IsBlocking(false) {
+			c.violation("C10: an import whose token violates the binding validates without a blocking issue into a results object that already holds warnings",
+				map[string]interface{}{"warnings_held_before": crowd, "issues_held": len(vr.Issues), "violated": "addressed to another account"})
+		}
+		if crowd <= 1000 {
+			ac := jwt.NewAccountClaims(importer.pub)
+			ac.Imports = imports
+			ac.Limits.Imports = -1
+			vr = jwt.CreateValidationResults()
+			ac.Validate(vr)
+			c.sum.ImplChecks++
+			if !vr.IsBlocking(false) {
+				c.violation("C10: account-level validation misses the binding violation of the last import of a long list",
+					map[string]interface{}{"imports_before_it": crowd, "issues_held": len(vr.Issues)})
+			}
+		}
+		distinct[fmt.Sprint("crowd", crowd)] = true
+		c.count("offending_import_after_a_crowd")
 	}
 	w.flush()
 	c.sum.Exhaustive = true
